@@ -23,7 +23,7 @@ TECHNIQUE = ("Lean 4 proofs over an executable model of the verifier (ValidatedE
              "deleted / corrupted per field / consistently forged on grids with one or several shares per server, check with and "
              "without verify, check_and_repair (also through a verify-cap node), post-repair results vs a fresh verify by a second "
              "client, read from the repaired shares only, byte-identity of pre-existing shares")
-LEVEL_TEXT = ("Proved (23 theorems, one _partial): verified_good_implies_all_valid (a share the verifier reports good carries the published UEB, "
+LEVEL_TEXT = ("Proved (24 theorems, one _partial): verified_good_implies_all_valid (a share the verifier reports good carries the published UEB, "
               "exactly the uploader's blocks and only published hash-tree nodes, for arbitrary server answers; each share read with "
               "its own trees); healthy_iff_N_good, recoverable_iff_k_good, corrupt_shares_listed (the arithmetic and lists of "
               "_format_results); noverify_believes_servers (verify=False counts exactly the claimed share numbers); "
@@ -41,7 +41,8 @@ LEVEL_TEXT = ("Proved (23 theorems, one _partial): verified_good_implies_all_val
               "acceptance theorems, is an invariant of every tree-writing stage; "
               "anchored_repaired_share_delivers_block threads one whole _get_satisfaction pass (all eight stages) for an anchored "
               "repaired share, fresh_repaired_share_delivers_block does the same for the first pass over a share (share hash chain "
-              "accepted, block root taken from the validated leaf): the answer is exactly the published block; missing links: the "
+              "accepted, block root taken from the validated leaf), known_chain_repaired_share_delivers_block for a new share whose "
+              "chain is already held: the answer is exactly the published block; missing links: the "
               "induction over the fetch history, "
               "decoding of any k blocks (C36 immutable_any_k_blocks_decode_rs256), termination (C03/C46); end to end this clause "
               "is checked by the monitor (read from repaired shares only).")
